@@ -185,7 +185,13 @@ struct SelfAwaiter {
 };
 
 #define ME() (gS->run[me] = 1, vx::gCtx->NameSelf(me))
-#define AWAIT(...) ((gS->run[me] = 0), co_await (__VA_ARGS__))
+// (the mark is made inside the operand: g++ 12 does not reliably sequence `(mark, co_await x)`)
+template <typename A>
+A&& MarkSuspended(const std::string& me, A&& awaitable) {
+  gS->run[me] = 0;
+  return std::forward<A>(awaitable);
+}
+#define AWAIT(...) co_await MarkSuspended(me, __VA_ARGS__)
 
 Exec* gExec = nullptr;
 const void* gSenderObj = nullptr;
